@@ -411,7 +411,10 @@ def wiring(rep, rule="K-wiring"):
                     labels = [label_var("l1"), "sil" if silence else label_var("l2")]
                     ents = [(s1, e1, labels[0]), (s2, e2, labels[1])]
 
+                    opened = []
+
                     def open_tg(I_, a, k):
+                        opened.append(a[1] if len(a) > 1 else k.get("includeEmptyIntervals", False))
                         tg, objs = build_tg(I_, [("interval", "words", ents), ("point", "other", [(s1, label_var("p1"))])], Lin.num(0), M)
                         crop_fn = I_.getattr(tg, "crop")
 
@@ -445,7 +448,9 @@ def wiring(rep, rule="K-wiring"):
                     exp = [(ents[i], (Lin.var("i%d" % (i + 1)), Lin.var("c%d" % (i + 1)))) for i in kept]
                     writes = [x[1] for x in world.log if x[0] == "open-w"]
                     problem = None
-                    if len(writes) != len(exp):
+                    if any(x is not False for x in opened):
+                        problem = "the TextGrid is opened with includeEmptyIntervals=%r: the blank stretches of the file become entries and get audio files of their own" % (opened[0],)
+                    elif len(writes) != len(exp):
                         problem = "%d audio files written for %d non-silent entries" % (len(writes), len(exp))
                     else:
                         paths = [w_["path"] for w_ in writes]
